@@ -410,29 +410,30 @@ private def docV : Node := .mk "Document" 0 [("definitions", .many [opV])]
 
 example : wellKinded childKinds docV = true := by decide +kernel
 
-private theorem covered_step {T : Table} {t p c : Node} (hp : Covered T t p) (st : Step)
-    (hst : st ∈ ownSteps T p.kind) (hh : Holds (p.getAttr st.attr) c) : Covered T t c :=
-  .child hp hst hh
+/-- one `Covered` step through the statement that the body of the parent's kind has for the attribute `a` (looked up in the
+    table: the examples do not depend on how the statement is written) -/
+theorem covered_attr {T : Table} {t p c : Node} (hp : Covered T t p) (a : String)
+    (hsome : ((ownSteps T p.kind).find? (·.attr == a)).isSome = true) (hh : Holds (p.getAttr a) c) : Covered T t c := by
+  cases hf : (ownSteps T p.kind).find? (·.attr == a) with
+  | none => simp [hf] at hsome
+  | some st =>
+    have hm := List.mem_of_find?_eq_some hf
+    have ha : st.attr = a := by simpa using List.find?_some hf
+    exact .child hp hm (by rw [ha]; exact hh)
 
 example : Covered table docV varN := by
-  have h1 : Covered table docV opV := covered_step .root ⟨none, "definitions", .many, .always, true, .disp "_visit_definition"⟩
-    (by decide +kernel) (by simp [Holds, docV, Node.getAttr, Node.attrs, List.lookup])
-  have h2 : Covered table docV ssV := covered_step h1 ⟨none, "selection_set", .one, .always, true, .method "_visit_selection_set"⟩
-    (by decide +kernel) (by simp [Holds, opV, Node.getAttr, Node.attrs, List.lookup])
-  have h3 : Covered table docV fN := covered_step h2 ⟨none, "selections", .many, .always, true, .disp "_visit_selection"⟩
-    (by decide +kernel) (by simp [Holds, ssV, Node.getAttr, Node.attrs, List.lookup])
-  have h4 : Covered table docV argN := covered_step h3 ⟨none, "arguments", .many, .always, true, .method "_visit_argument"⟩
-    (by decide +kernel) (by simp [Holds, fN, Node.getAttr, Node.attrs, List.lookup])
-  have h5 : Covered table docV ovN := covered_step h4 ⟨none, "value", .one, .always, true, .disp "_visit_input_value"⟩
-    (by decide +kernel) (by simp [Holds, argN, Node.getAttr, Node.attrs, List.lookup])
-  have h6 : Covered table docV ofN := covered_step h5 ⟨some ["ObjectValue"], "fields", .many, .always, true, .method "_visit_object_field"⟩
-    (by decide +kernel) (by simp [Holds, ovN, Node.getAttr, Node.attrs, List.lookup])
-  exact covered_step h6 ⟨none, "value", .one, .always, true, .method "_visit_value"⟩
-    (by decide +kernel) (by simp [Holds, ofN, Node.getAttr, Node.attrs, List.lookup])
+  have h1 : Covered table docV opV := covered_attr .root "definitions" (by decide +kernel) (by simp [Holds, docV, Node.getAttr, Node.attrs, List.lookup])
+  have h2 : Covered table docV ssV := covered_attr h1 "selection_set" (by decide +kernel) (by simp [Holds, opV, Node.getAttr, Node.attrs, List.lookup])
+  have h3 : Covered table docV fN := covered_attr h2 "selections" (by decide +kernel) (by simp [Holds, ssV, Node.getAttr, Node.attrs, List.lookup])
+  have h4 : Covered table docV argN := covered_attr h3 "arguments" (by decide +kernel) (by simp [Holds, fN, Node.getAttr, Node.attrs, List.lookup])
+  have h5 : Covered table docV ovN := covered_attr h4 "value" (by decide +kernel) (by simp [Holds, argN, Node.getAttr, Node.attrs, List.lookup])
+  have h6 : Covered table docV ofN := covered_attr h5 "fields" (by decide +kernel) (by simp [Holds, ovN, Node.getAttr, Node.attrs, List.lookup])
+  exact covered_attr h6 "value" (by decide +kernel) (by simp [Holds, ofN, Node.getAttr, Node.attrs, List.lookup])
 
-/-- … while the method that runs on it is NOT the one registered for its kind (so `Entered` does not cover it) -/
-example : resolve table (.method "_visit_value") "Variable" = .ok "_visit_value" ∧
-    table.visit.lookup "Variable" = some "_visit_variable" := ⟨rfl, rfl⟩
+/-- … whatever method runs on it: `Entered` covers it only if that method is the one `visit` registers for `Variable`
+    (today `_visit_object_field` calls `_visit_value`, `visit` registers `_visit_variable`); `Covered` does not care -/
+example : (match resolve table ((ownSteps table "ObjectField").headD default).target "Variable" with
+    | .ok _ => true | .error _ => false) = true := by decide +kernel
 
 example : (match visit table observer 16 docV () with | .ok o => o.tr.length | _ => 0) = 16 := by decide +kernel
 
